@@ -408,9 +408,9 @@ pub fn run(ctx: &Ctx, rep: &mut Report) {
         "exhaustive-Vec",
         json!({"note": "every sequence over the alphabet up to max_depth, e.g.", "ops": ["Push(1)", "Push(2)", "Push(3)", "Push(4)", "Advance(2)", "PopBack"]}),
     );
-    let cases = ctx.share(ctx.tier.pick(40_000, 8_000_000));
+    let cases = ctx.share(ctx.tier.pick(80_000, 8_000_000));
     engine::drive(ctx, rep, "random", case_strategy(200), cases, check_case);
-    let cases = ctx.share(ctx.tier.pick(1_200, 200_000));
+    let cases = ctx.share(ctx.tier.pick(2_400, 200_000));
     engine::drive(ctx, rep, "large", large_case_strategy(), cases, check_case);
 }
 
